@@ -281,7 +281,31 @@ func runC06(c *fw.Case) {
 		}
 	}
 	rounds := 3 + r.Intn(6)
+	wipeOut := r.Intn(8) == 0 // a lineage in which everything gets deleted: compactions then produce and re-select EMPTY tables
+	if wipeOut {
+		c.Obs("lineages_with_wipe_out", 1)
+		opts.Threshold = 0
+	}
 	for i := 0; i < rounds; i++ {
+		if wipeOut && i == 1 {
+			for _, k := range keys {
+				if err := db.Delete(k); err != nil {
+					c.Violate("compaction/delete-error", "%v", err)
+					return
+				}
+				delete(model, k)
+			}
+			if err := db.VerifForceRotate(); err != nil || !waitFlushIdle(60*time.Second) {
+				c.Inconclusive("rotation after wipe-out did not complete")
+				return
+			}
+			note("table(all keys deleted)")
+			c.HashAdd("wipe-out")
+			// everything selected incl. the oldest -> empty table; then the empty table is selected again
+			if !cycle() || !cycle() || !cycle() {
+				return
+			}
+		}
 		switch r.Intn(5) {
 		case 0, 1:
 			if !cycle() {
